@@ -21,18 +21,25 @@ TInit == Init /\ tid \in 1..Len(Traces) /\ pos = 1 /\ verdict = "none"
 Clean(o) == ~o.raised /\ o.bad = ""
 ObsEq(o, e) == /\ Clean(o) /\ o.reac = e.reac /\ o.prod = e.prod /\ o.kexp = e.kexp /\ o.rest = <<1, 1>>
 
-Step(e) ==
+(* the observation lists every register: none but the target may have changed *)
+ObsAll(o, x) == \A r \in Regs : /\ o.all[r].loaded = Loaded(x[r])
+                                  /\ (Loaded(x[r]) => ObsEq(o.all[r], x[r]))
+StepOp(e) ==
     CASE e.op = "Load"  -> Load(e.r, e.b, [reac |-> e.reac, prod |-> e.prod]) /\ ObsEq(e.obs, out'.val)
       [] e.op = "Scale" -> Scale(e.r, e.n) /\ ObsEq(e.obs, out'.val)
       [] e.op = "Neg"   -> Neg(e.r) /\ ObsEq(e.obs, out'.val)
+      [] e.op = "Copy"  -> Copy(e.r, e.q) /\ ObsEq(e.obs, out'.val)
       [] e.op = "Add"   -> Add(e.r, e.q) /\ ObsEq(e.obs, out'.val)
       [] e.op = "Sub"   -> Sub(e.r, e.q) /\ ObsEq(e.obs, out'.val)
       [] e.op = "Eliminate" -> Clean(e.obs) /\ Eliminate(e.r, e.q, e.s, e.obs.m[1], e.obs.m[2])
       [] e.op = "Cancel" -> Clean(e.obs) /\ Cancel(e.r, e.q, e.obs.m)
+      [] e.op = "AsReactions" /\ e.which \in {"both", "none"} ->
+             AsReactionsRefused(e.r, e.which) /\ e.obs.raised /\ e.obs.exc = "ValueError"
       [] e.op = "AsReactions" -> /\ AsReactions(e.r, e.which)
                                  /\ Clean(e.obs)
                                  /\ ObsEq(e.obs.fw, out'.rx.fw) /\ ObsEq(e.obs.bw, out'.rx.bw)
       [] OTHER -> FALSE
+Step(e) == StepOp(e) /\ ((~e.obs.raised /\ e.obs.bad = "") => ObsAll(e.obs, out'.all))
 
 TStep ==
     /\ verdict = "none" /\ pos <= Len(Traces[tid])
@@ -55,6 +62,7 @@ ExpectedReg(e) ==
     CASE e.op = "Load"  -> [reac |-> e.reac, prod |-> e.prod, kexp |-> Unit(e.b)]
       [] e.op = "Scale" -> ScaleEq(regs[e.r], e.n)
       [] e.op = "Neg"   -> ScaleEq(regs[e.r], -1)
+      [] e.op = "Copy"  -> regs[e.q]
       [] e.op = "Add"   -> AddEq(regs[e.r], regs[e.q])
       [] e.op = "Sub"   -> SubEq(regs[e.r], regs[e.q])
 ObsClause(o, x) ==
@@ -64,6 +72,7 @@ ObsClause(o, x) ==
     ELSE IF o.kexp # x.kexp THEN "constant"
     ELSE IF o.rest # <<1, 1>> THEN "constant-residue"
     ELSE "ok"
+Or(c, alt) == IF c = "ok" THEN alt ELSE c
 Clause ==
     IF pos > Len(Traces[tid]) THEN "model:no-end-event"
     ELSE LET e == Ev IN
@@ -73,31 +82,38 @@ Clause ==
            ELSE ObsClause(e.obs, ExpectedReg(e)))
       ELSE IF e.op \in {"Scale", "Neg"} THEN
           (IF ~IsReg(e.r) \/ (e.op = "Scale" /\ e.n = 0) THEN "model:" \o e.op
-           ELSE ObsClause(e.obs, ExpectedReg(e)))
+           ELSE Or(ObsClause(e.obs, ExpectedReg(e)), "operand-changed"))
+      ELSE IF e.op = "Copy" THEN
+          (IF ~(e.r \in Regs /\ IsReg(e.q) /\ e.r # e.q) THEN "model:Copy"
+           ELSE Or(ObsClause(e.obs, ExpectedReg(e)), "operand-changed"))
       ELSE IF e.op \in {"Add", "Sub"} THEN
           (IF ~IsReg(e.r) \/ ~IsReg(e.q) THEN "model:" \o e.op
            ELSE IF ~HasEffect(ExpectedReg(e)) THEN "outside:no-effect"
-           ELSE ObsClause(e.obs, ExpectedReg(e)))
+           ELSE Or(ObsClause(e.obs, ExpectedReg(e)), "operand-changed"))
       ELSE IF e.op = "Eliminate" THEN
           (IF ~IsReg(e.r) \/ ~IsReg(e.q) \/ e.r = e.q THEN "model:Eliminate"
            ELSE IF NetAt(regs[e.r], e.s) = 0 \/ NetAt(regs[e.q], e.s) = 0 THEN "outside:species-not-shared"
            ELSE IF e.obs.raised THEN "raised:" \o e.obs.exc
            ELSE IF e.obs.bad # "" THEN "bad:" \o e.obs.bad
+           ELSE IF ElimOK(e.obs.m[1], e.obs.m[2], NetAt(regs[e.r], e.s), NetAt(regs[e.q], e.s)) THEN "operand-changed"
            ELSE "multipliers")
       ELSE IF e.op = "Cancel" THEN
           (IF ~IsReg(e.r) \/ ~IsReg(e.q) \/ e.r = e.q THEN "model:Cancel"
            ELSE IF ~CancelDefined(regs[e.r], regs[e.q]) THEN "outside:cancel-zero-net"
            ELSE IF e.obs.raised THEN "raised:" \o e.obs.exc
            ELSE IF e.obs.bad # "" THEN "bad:" \o e.obs.bad
+           ELSE IF e.obs.m \in CancelSet(regs[e.r], regs[e.q]) THEN "operand-changed"
            ELSE "cancel-multiplier")
       ELSE IF e.op = "AsReactions" THEN
-          (IF ~IsReg(e.r) \/ e.which \notin RateNames THEN "model:AsReactions"
+          (IF ~IsReg(e.r) \/ e.which \notin RateNames \cup {"both", "none"} THEN "model:AsReactions"
+           ELSE IF e.which \in {"both", "none"} THEN
+                (IF e.obs.raised THEN "refused-with:" \o e.obs.exc ELSE "not-refused")
            ELSE IF e.obs.raised THEN "raised:" \o e.obs.exc
            ELSE IF e.obs.bad # "" THEN "bad:" \o e.obs.bad
            ELSE LET x == AsRx(regs[e.r], e.which)
                     c1 == ObsClause(e.obs.fw, x.fw)
                     c2 == ObsClause(e.obs.bw, x.bw)
-                IN IF c1 # "ok" THEN "forward-" \o c1 ELSE "backward-" \o c2)
+                IN IF c1 # "ok" THEN "forward-" \o c1 ELSE IF c2 # "ok" THEN "backward-" \o c2 ELSE "operand-changed")
       ELSE "model:unknown-op"
 
 Verdict == verdict # "none" =>
